@@ -220,6 +220,9 @@ def gen_tree(r, max_depth=3, allow_bytes=False, nfiles=None):
         where = r.choice(('adjacent', 'adjacent', 'sub', 'parent', 'inc') if inc_dirs else ('adjacent', 'adjacent', 'sub', 'parent'))
         if where == 'adjacent':
             path, written = pdir + '/' + name, name
+            # a spelling that goes down and up again (only through a directory that exists)
+            if r.random() < 0.12 and (pdir + '/sub') in LAYOUT_DIRS:
+                written = 'sub/../' + name
         elif where == 'sub':
             sd = r.choice(('sub', 'deep', 'lib'))
             path, written = pdir + '/' + sd + '/' + name, sd + '/' + name
@@ -293,8 +296,10 @@ def gen_tree(r, max_depth=3, allow_bytes=False, nfiles=None):
         for ch in n['children']:
             style = r.random()
             w = ch['written']
-            if style < 0.5:
+            if style < 0.42:
                 line = 'include %s' % w
+            elif style < 0.5:
+                line = 'include %s%s' % (w, r.choice(('  ', '\t', ' \t ')))
             elif style < 0.7:
                 line = 'include "%s"' % w
             elif style < 0.8:
@@ -315,6 +320,8 @@ def gen_tree(r, max_depth=3, allow_bytes=False, nfiles=None):
             text += '\n\n\n'
         if r.random() < 0.1:
             text = '\n' + text
+        if r.random() < 0.08:
+            text = text.replace('\n', '\r\n')
         files[n['path']] = text
     tree = {'files': files, 'bins': bins, 'dirs': list(LAYOUT_DIRS), 'main': main, 'inc_dirs': inc_dirs, 'includes': includes,
             'symbols': env}
@@ -497,7 +504,7 @@ FAULTS = {
     'imm-range': ['addi t0, t0, 2048', 'addi t0, t0, -2049', 'lw t0, 4096(sp)', 'sw t0, -2049(sp)', 'lui t0, 0x100000', 'lui t0, -1',
                   'beq t0, t1, 4096', 'beq t0, t1, -4098', 'jal ra, 1048576', 'jal x0, -1048578', 'c.addi t0, 32', 'c.li t0, -33',
                   'fence 16 0', 'andi s0, s0, 4000', 'slti a0, a0, 99999', 'jalr x0, 2048(t0)', 'lb a0, -3000(a1)', 'auipc t0, 1048576',
-                  'beq t0, t1, 3', 'jal ra, 5', 'align 0', 'csrrw t0, 4096, t1', 'c.lui t0, 64', 'c.addi16sp 1024', 'c.jal 4096', 'c.lwsp t0, 256'],
+                  'beq t0, t1, 3', 'jal ra, 5', 'align 0', 'addi {r}, {r}, 5000', 'lw {r}, 9999({r})', 'slli {r}, {r}, 40', 'csrrw t0, 4096, t1', 'c.lui t0, 64', 'c.addi16sp 1024', 'c.jal 4096', 'c.lwsp t0, 256'],
     'imm-range-pseudo': ['li t0, 1 << 40', 'li t0, 0x100000000 * 4096 + 0x1000'],
     'data-range': ['db 256', 'db -129', 'dh 65536', 'dh -32769', 'dw 4294967296', 'dw -2147483649', 'dd 18446744073709551616',
                    'bytes 256', 'bytes 1 2 -129', 'shorts 65536', 'shorts -32769', 'ints 4294967296', 'longs -2147483649',
@@ -506,7 +513,7 @@ FAULTS = {
                          'add t0, t0, bar', 'lui x99, 1', 'jal x40, {label}', 'sub s0, s0, x77', 'not t0, q1', 'jr q5', 'li y1, 5',
                          'slli t0, t0, 32', 'srai s0, s0, -1', 'srli s0, s0, NOSHAMT', 'jalr q1', 'neg t0, x33', 'bnez q3, {label}',
                          'lw x8, 0(x99)', 'sw x99, 0(x8)', 'and s0, s0, q8', 'addi x8, qq, 4', 'li y1, 0x12345678', 'li q2, -100000', 'li zz, 0xfffff800',
-                         'seqz t0, q7', 'sgtz q1, t0', 'bgt q1, t0, {label}', 'blez q9, {label}', 'csrrw q1, t0, 0x300', 'mul t0, t1, q2', 'amoadd.w t0, t1, q3'],
+                         'seqz t0, q7', 'sgtz q1, t0', 'add {r}, {r}, q9', 'sw {r}, 0(q2)', 'bgt q1, t0, {label}', 'blez q9, {label}', 'csrrw q1, t0, 0x300', 'mul t0, t1, q2', 'amoadd.w t0, t1, q3'],
     'undefined-label': ['beq t0, t1, nolabel', 'jal ra, nolabel', 'j nolabel', 'call nolabel', 'tail nolabel', 'dw nolabel', 'li t0, nolabel',
                         'lui t0, %hi(nolabel)', 'addi t0, t0, %lo(nolabel)', 'pack <I %position(nolabel, 0)', 'beqz t0, nolabel',
                         'bgt t0, t1, nolabel', 'jal nolabel', 'bne s0, x0, nolabel', 'addi t0, t0, %offset(nolabel)', 'blez a0, nolabel'],
@@ -531,7 +538,8 @@ def plant_fault(r, tree, cls, line_text=None, target_file=None, where=None):
     """Insert one faulty line into a file of the tree.  Returns (file, 1-based line number, text)."""
     labels = tree['symbols']['labels'] or ['la']
     text = line_text or r.choice(FAULTS[cls])
-    text = text.replace('{label}', r.choice(labels)).replace('{dup}', r.choice(labels))
+    aliases = tree['symbols'].get('regconsts') or []
+    text = text.replace('{label}', r.choice(labels)).replace('{dup}', r.choice(labels)).replace('{r}', r.choice(aliases) if aliases else 't0')
     paths = sorted(tree['files'])
     path = target_file or r.choice(paths)
     lines = tree['files'][path].split('\n')
@@ -554,6 +562,8 @@ def plant_fault(r, tree, cls, line_text=None, target_file=None, where=None):
     head = text.split()[0].lower() if text.split() else ''
     if head in DATA_FAULT_PREFIX and head != 'align':
         ins.append('align 4')
+    if lines and lines[0].endswith('\r'):
+        ins = [i + '\r' for i in ins]
     lines[pos:pos] = ins
     tree['files'][path] = '\n'.join(lines)
     return path, pos + 1, ins[0]
